@@ -106,7 +106,9 @@ class Ctx:
         self.extra = {}
         self.streams = {}
         self.exhaustive = None
-        self.work = os.path.join(WORK, pid)
+        # a run against a scratch worktree (VERIF_REPO) gets its own work directory, so that it can run next to
+        # a run of the same check on /repo or on another worktree
+        self.work = os.path.join(WORK, pid if REPO == "/repo" else pid + ".alt-" + hashlib.sha1(REPO.encode()).hexdigest()[:8])
         os.makedirs(self.work, exist_ok=True)
         os.makedirs(REPLAYS, exist_ok=True)
         os.makedirs(EVIDENCE, exist_ok=True)
@@ -176,10 +178,10 @@ class Ctx:
         # out_name: binary name under harness/bin (default: the package name); a check that shares another
         # property's harness package builds its own copy so that concurrent checks never delete each other's binary
         out = os.path.join(BIN, out_name or pkg)
-        if os.path.exists(out):
-            os.remove(out)  # never run a stale binary
         extra = []
         if os.path.realpath(REPO) == "/repo":
+            if os.path.exists(out):
+                os.remove(out)  # never run a stale binary
             try:
                 shutil.copyfile(os.path.join(REPO, "go.sum"), os.path.join(HARNESS, "go.sum"))
             except OSError:
